@@ -31,6 +31,9 @@ GROUPS = [
     (["8.2.0", "tl:testlib_3.0.0"], [("tl:", "testlib_3.0.0"), ("", "8.2.0")]),
     (["aa:8.3.0", "sc:score_2.0.0"], [("aa:", "8.3.0"), ("sc:", "score_2.0.0")]),
     (["xx:8.3.0"], [("xx:", "8.3.0")]),
+    # prefixes whose letters, in the same case, are the first letters of tag names
+    (["8.3.0", "Sc:score_2.0.0"], [("Sc:", "score_2.0.0")]),
+    (["It:8.3.0"], [("It:", "8.3.0")]),
     # two libraries that share a standard partner, merged under one prefix, in both orders
     (["8.2.0", "mm:score_1.1.0", "mm:testlib_2.0.0"], [("mm:", "testlib_2.0.0"), ("mm:", "score_1.1.0"), ("", "8.2.0")]),
     (["mm:testlib_2.0.0", "mm:score_1.1.0"], [("mm:", "testlib_2.0.0"), ("mm:", "score_1.1.0")]),
@@ -248,7 +251,7 @@ def expect_load(rec, what, versions, should_load, folder=None):
     from hed.errors.exceptions import HedFileError
     env.clear_hed_caches()
     case = dict(kind="refusal", versions=versions, should_load=should_load, what=what)
-    rec.case(("refusal", what, tuple(versions)))
+    rec.case(("refusal", what, tuple(versions) if isinstance(versions, list) else versions))
     try:
         s = load_schema_version(versions, xml_folder=folder) if folder else load_schema_version(versions)
         ok = True
@@ -270,6 +273,10 @@ def run_refusals(shard, rec):
     expect_load(rec, "same library twice (one prefix)", ["sc:score_2.0.0", "sc:score_2.0.0"], False)
     expect_load(rec, "same standard twice", ["8.3.0", "8.3.0"], False)
     expect_load(rec, "two standard schemas under one prefix", ["8.3.0", "8.2.0"], False)
+    expect_load(rec, "two standard schemas under one prefix (older first)", ["8.2.0", "8.3.0"], False)
+    expect_load(rec, "two standard schemas under one prefix (comma form)", "8.2.0,8.3.0", False)
+    expect_load(rec, "two standard schemas under one named prefix", ["ts:8.1.0", "ts:8.3.0"], False)
+    expect_load(rec, "same standard twice (comma form)", "8.3.0,8.3.0", False)
     expect_load(rec, "two versions of one library under one prefix", ["testlib_2.0.0", "testlib_2.1.0"], False)
     expect_load(rec, "two versions of one library under one prefix (reversed)", ["testlib_2.1.0", "testlib_2.0.0"], False)
     expect_load(rec, "two library versions clashing only on rooted tags", ["testlib_2.1.0", "testlib_3.0.0"], False)
